@@ -85,7 +85,8 @@ def judge(layout, names, ex, info):
 
 
 def task(args):
-    layout, names, bound = args
+    layout, names, bound = args[:3]
+    sub = args[3] if len(args) > 3 else None
     from ..procs import explore, ScheduleError
     vios = []
     outcomes = set()
@@ -99,7 +100,7 @@ def task(args):
         outcomes.add(repr((info['recent'], info['conds'])))
         return ex, info
     try:
-        st = explore(run, bound)
+        st = explore(run, bound, prefixes=sub)
     except ScheduleError as exc:
         return {'error': repr(exc), 'names': names}
     finally:
@@ -112,5 +113,7 @@ def tasks(tier):
     T = [('++', pr, 1) for pr in PAIRS]
     if tier != 'quick':
         T += [('fs', pr, 1) for pr in PAIRS]
-        T += [('++', pr, 2) for pr in PAIRS[:4]]
+        for pr in PAIRS[:4]:
+            T += [('++', pr, 2, ch) for ch in mt.split_root(
+                lambda pr=pr: run_schedule('++', pr, [])[0], 2)]
     return T
